@@ -38,7 +38,7 @@ class Session:
                                   stderr=subprocess.DEVNULL, bufsize=0)
         self.buf = b""
         self.threads = []
-        ln = self.readline(120)
+        ln = self.readline(600)
         self.open_line = (ln or "HANG").strip()
 
     def readline(self, timeout):
@@ -64,7 +64,7 @@ class Session:
         outs = []
         while True:
             # a store that stops answering is an observation (HANG), not a reason to hang the check
-            ln = self.readline(120)
+            ln = self.readline(600)
             if ln is None:
                 self.p.kill()
                 outs.append("HANG")
